@@ -40,6 +40,8 @@ class KernelResult:
         self.vacuity = None         # reachability witness result
         self.exhaustive = False
         self.notes = []
+        self.validate = []         # (replay name, args): proved sample paths whose witness is run on the real build and must agree (translator validation)
+        self.validated = 0
     def inconc(self, reason):
         self.inconclusive.append(reason)
         if self.status == 'proved': self.status = 'inconclusive'
@@ -160,6 +162,15 @@ def run_property(pid, tier, seed, kernel_filter=None):
             else:
                 unconfirmed.append((kr, f))
                 kr.inconc('model did not reproduce on the real build: %s' % f.role)
+        # translator validation: witnesses of sample paths on which the kernel's assertion holds must also hold on the real build
+        for name, args in kr.validate[:12]:
+            try:
+                rep, details = REPLAYS[name](*args)(ctx)
+            except Exception as e:
+                rep, details = None, {'error': str(e)}
+            if rep is False: kr.validated += 1
+            elif rep is True:
+                kr.inconc('translator validation: the real build violates the assertion on a case the encoding proved (%s %s)' % (name, json.dumps(details, default=str)[:300]))
         results.append(kr)
         st = kr.status.upper()
         print('[%s] %-44s %-12s paths=%d queries=%d %.1fs %s' % (pid, kid, st, kr.paths, kr.queries, kr.wall_s,
@@ -173,10 +184,11 @@ def run_property(pid, tier, seed, kernel_filter=None):
         print('UNCONFIRMED: property=%s kernel=%s role=%s (model not reproduced on the real build; treated as inconclusive) %s' % (pid, kr.kernel, f.role, json.dumps(f.details)[:300]))
     rc = 0
     if violations:
-        os.makedirs(os.path.join(VERIF, 'replays'), exist_ok=True)
+        rdir = os.environ.get('VERIF_REPLAY_DIR') or os.path.join(VERIF, 'replays')
+        os.makedirs(rdir, exist_ok=True)
         for kr, f in violations:
             name = re.sub(r'[^A-Za-z0-9_.-]+', '_', '%s_%s' % (pid, f.role))[:120] + '.json'
-            path = os.path.join(VERIF, 'replays', name)
+            path = os.path.join(rdir, name)
             with open(path, 'w') as fh:
                 json.dump({'property': pid, 'kernel': kr.kernel, 'role': f.role, 'what': f.what, 'witness': f.witness, 'observed': f.details}, fh, indent=1, default=str)
             print('VIOLATION property=%s replay=%s' % (pid, path))
@@ -198,6 +210,7 @@ def write_evidence(pid, tier, seed, results, ctx, wall, nviol, known_hits, uncon
         'coverage': {
             'states': max(states, 0), 'transitions': max(trans, 0),
             'traces_validated_against_impl': ctx.replays_attempted + sum(getattr(k, 'validated', 0) for k in results),
+            'translator_validation_cases': sum(getattr(k, 'validated', 0) for k in results),
             'samples': samples[:40],
             'evaluations': states, 'distinct_nontrivial': sum(k.nontrivial for k in results),
             'rule': 'one evaluation = one symbolic path (or memoised lexer state) of a kernel; non-trivial = its path condition or assertion involves at least one symbolic input',
@@ -218,8 +231,9 @@ def write_evidence(pid, tier, seed, results, ctx, wall, nviol, known_hits, uncon
             'rustc nightly MIR of the dev profile is a faithful rendering of the code', 'mirsym interpreter and its contract models (listed per kernel)', 'z3 4.x/5.x decision procedures'],
         'wall_s': round(wall, 2), 'violations': nviol,
     }
-    os.makedirs(os.path.join(VERIF, 'evidence'), exist_ok=True)
-    with open(os.path.join(VERIF, 'evidence', pid + '.json'), 'w') as f:
+    evdir = os.environ.get('VERIF_EVIDENCE_DIR') or os.path.join(VERIF, 'evidence')      # seed-matrix runs on mutated trees write elsewhere
+    os.makedirs(evdir, exist_ok=True)
+    with open(os.path.join(evdir, pid + '.json'), 'w') as f:
         json.dump(ev, f, indent=1, default=str)
 
 
@@ -261,7 +275,7 @@ class Part:
     def __init__(self):
         self.paths = 0; self.queries = 0; self.solver_s = 0.0; self.nontrivial = 0
         self.findings = []        # dicts: role, what, witness, replay=(name, args)
-        self.inconclusive = []; self.samples = []; self.encoded = set(); self.models = set(); self.notes = []
+        self.inconclusive = []; self.samples = []; self.encoded = set(); self.models = set(); self.notes = []; self.validate = []
     def inconc(self, r):
         if r not in self.inconclusive: self.inconclusive.append(r)
     def add(self, role, what, witness, replay=None):
@@ -279,6 +293,8 @@ def merge_part(kr, part, prog=None):
     for s in part.samples:
         if len(kr.samples) < 6: kr.samples.append(s)
     kr.notes.extend(part.notes[:3])
+    for v in part.validate:
+        if len(kr.validate) < 12 and v not in kr.validate: kr.validate.append(v)
     kr._enc = getattr(kr, '_enc', set()) | part.encoded
     kr.models = sorted(set(kr.models) | part.models)
     for f in part.findings:
